@@ -257,7 +257,7 @@ Fixpoint transform_expr (fuel : nat) (s : vm) (e : cell) {struct fuel} : out cel
       | CPair proc rest =>
           if sym_eq proc "quote" || sym_eq proc "define-syntax" then Ok e else
           match macro_of s proc with
-          | Some tr => do x <- transform_apply f tr e; transform_expr f s x
+          | Some tr => do x <- transform_apply tr e; transform_expr f s x
           | None =>
               do p' <- transform_expr f s proc;
               let fix over (r : cell) : out cell :=
